@@ -1024,6 +1024,54 @@ func checkC11Reader(c *Ctx, p *Program) {
 			c.bad("C11.reader", fname(f)+": the io.Reader argument is the source of the randomness used", "the argument is never read: the randomness comes from a source that is not an argument of the call", p.fnPos(f))
 		}
 	}
+	// ... and it is the only source: the process-wide generator is read only as the documented default of a
+	// nil argument (the load then meets the parameter in a phi or is stored over it)
+	for _, f := range fs {
+		var par *ssa.Parameter
+		for _, q := range f.Params {
+			if q.Type().String() == "io.Reader" {
+				par = q
+			}
+		}
+		if par == nil {
+			continue
+		}
+		for _, b := range f.Blocks {
+			for _, in := range b.Instrs {
+				ld, ok := in.(*ssa.UnOp)
+				if !ok || ld.Op != token.MUL {
+					continue
+				}
+				g, ok := ld.X.(*ssa.Global)
+				if !ok || g.Pkg == nil || g.Pkg.Pkg.Path() != "crypto/rand" || g.Name() != "Reader" {
+					continue
+				}
+				isDefault := false
+				for _, r := range *ld.Referrers() {
+					switch x := r.(type) {
+					case *ssa.Phi:
+						for _, e := range x.Edges {
+							if e == par {
+								isDefault = true
+							}
+						}
+					case *ssa.Store:
+						if a, ok := x.Addr.(*ssa.Alloc); ok {
+							for _, r2 := range *a.Referrers() {
+								if st, ok := r2.(*ssa.Store); ok && st.Val == par {
+									isDefault = true
+								}
+							}
+						}
+					}
+				}
+				if !isDefault {
+					nbad++
+					c.bad("C11.reader", fname(f)+": the io.Reader argument is the only source of the randomness used", "crypto/rand.Reader is read although the caller passed a reader (not as the default of a nil argument)", p.pos(ld.Pos()))
+				}
+			}
+		}
+	}
 	c.count("reader_params", n)
 	if n < 60 {
 		c.undecided("C11.reader", "functions with an io.Reader parameter", fmt.Sprintf("only %d found (floor 60)", n), "")
